@@ -177,3 +177,16 @@ Proof.
   - eexists. split; [vm_compute; reflexivity|]. vm_compute. repeat split; reflexivity.
   - eexists. split; [vm_compute; reflexivity|]. vm_compute. repeat split; reflexivity.
 Qed.
+
+(* ------------------------------------------------------------------ the freshness hypothesis is needed *)
+(* delegation_guids mapping a delegation id to the aggregate model's own graph id: the "clone" replaces the
+   source and the per-id rewriting and the removal are applied to the source itself. *)
+Lemma source_untouched_needs_fresh_ids_refuted :
+  exists st garm A gid_of st' dgs,
+    sget st garm = Some A /\ wfb A = true /\ In garm (map gid_of (c_ids (catalog_delegations A))) /\
+    st_generate_adms st garm gid_of = Ok (st', dgs) /\ sget st' garm <> Some A.
+Proof.
+  exists [(100, ex_A)], 100, ex_A, (fun d => if d =? 1 then 100 else 200).
+  eexists. eexists. split; [reflexivity|]. split; [vm_compute; reflexivity|]. split; [vm_compute; tauto|].
+  split; [vm_compute; reflexivity|]. vm_compute. discriminate.
+Qed.
